@@ -274,6 +274,8 @@ def runBuildCase (lines : List String) : List String :=
   let rec go (b : BState) : List String → List String
     | [] => b.out.toList
     | l :: ls =>
+      -- a session must be closed (the harness needs the whole session to run it)
+      if l == "session" && !(ls.contains "endsession") then (b.put ("bad-op " ++ l)).out.toList else
       match stepB b l with
       | some b' => go b' ls
       | none => (b.put ("bad-op " ++ l)).out.toList
